@@ -149,6 +149,12 @@ def leftrec_grammar(rng, idx):
                                           gen.seq(('field', 'l', True, 'E'), gen.lit('['), ('field', 'i', False, 'Num'), gen.lit(']')),
                                           gen.seq(('field', 'n', False, 'Num'), ('opt', gen.choice(gen.seq(gen.lit('?'))))))))
         rules.append(num)
+    # `@leftrec` together with `@memoize` on the same rule, in either order (legal, redundant: `@leftrec` wins)
+    if r.random() < 0.3:
+        for x in rules:
+            if x['kind'] == 'rule' and 'leftrec' in x['dirs'] and 'memoize' not in x['dirs']:
+                k = x['dirs'].index('leftrec')
+                x['dirs'].insert(k + (1 if r.random() < 0.5 else 0), 'memoize')
     # a wrapper that calls the left-recursive rule from two alternatives at the same offset
     if r.random() < 0.5:
         rules.insert(0, dict(kind='rule', dirs=['export'], name='Top',
@@ -431,7 +437,13 @@ def build_cases(seed, tier):
                 opts = dict(multibyte=True)
             g = gen.Gen(rng, fam, opts)
             rules = g.build()
-            add('%s%d' % (fam, i), rules, g.uctx, std_inputs(rules, g.multibyte, ni, maxlen), [fam])
+            ins = std_inputs(rules, g.multibyte, ni, maxlen)
+            if fam == 'multibyte' and i % 3 == 0:
+                # tracers look at a window of the remaining input: long inputs with multi-byte characters around the
+                # 50th character (whether they parse or not does not matter)
+                ex = gen.exported_rules(rules)[0]
+                ins = ins + [(ex, 'a' * k + '\u00e9\u20ac\U0001f600zz' * 3) for k in (47, 48, 49, 50)]
+            add('%s%d' % (fam, i), rules, g.uctx, ins, [fam])
     # memo variants: same grammar, four @memoize sets, same inputs
     n, ni = size('memo')
     for i in range(n):
@@ -505,6 +517,21 @@ def build_cases(seed, tier):
         add('incl%da' % i, rules, False, ins, ['incl'], group='incl%d' % i, variant=0)
         add('incl%db' % i, inline_includes(rules), False, ins, ['incl'], group='incl%d' % i, variant=1)
         i += 1
+    # include graphs that are not trees: a diamond, and a rule included directly and through another included rule
+    F_ = lambda n_, t_: ('field', n_, False, t_)
+    for i, shape in enumerate(['diamond', 'direct+indirect']):
+        d_rule = dict(kind='rule', dirs=[], name='D', body=gen.choice(gen.seq(F_('d', 'Num'))))
+        num = dict(kind='rule', dirs=['string'], name='Num', body=gen.choice(gen.seq(('plus', gen.choice(gen.seq(('range', gen.C('0'), gen.C('9'))))))))
+        if shape == 'diamond':
+            rules = [dict(kind='rule', dirs=['export'], name='A', body=gen.choice(gen.seq(('incl', 'B')), gen.seq(('incl', 'Cc')))),
+                     dict(kind='rule', dirs=[], name='B', body=gen.choice(gen.seq(gen.lit('b'), ('incl', 'D')))),
+                     dict(kind='rule', dirs=[], name='Cc', body=gen.choice(gen.seq(gen.lit('c'), ('incl', 'D')))), d_rule, num]
+        else:
+            rules = [dict(kind='rule', dirs=['export'], name='A', body=gen.choice(gen.seq(('incl', 'D'), gen.lit(','), ('star', gen.choice(gen.seq(('incl', 'B'))))))),
+                     dict(kind='rule', dirs=[], name='B', body=gen.choice(gen.seq(gen.lit('b'), ('incl', 'D')))), d_rule, num]
+        ins = [('A', s) for s in ['b1', 'c22', 'b', 'd1', '1,b2b3', '1,', '1,b', ',b2', 'c 3', '7 , b 8']]
+        add('incld%da' % i, rules, False, ins, ['incl'], group='incld%d' % i, variant=0)
+        add('incld%db' % i, inline_includes(rules), False, ins, ['incl'], group='incld%d' % i, variant=1)
     # probes
     n, ni = size('probe')
     for i in range(n):
